@@ -214,12 +214,22 @@ fn own_tid() -> u32 {
         .unwrap_or(0)
 }
 
-/// Is that thread of this process sleeping in the kernel (state S)?
-fn thread_sleeps(tid: u32) -> bool {
-    match std::fs::read_to_string(format!("/proc/self/task/{}/stat", tid)) {
-        Ok(s) => s.rsplit_once(')').map(|(_, rest)| rest.trim_start().starts_with('S')).unwrap_or(false),
-        Err(_) => false,
+/// State of that thread of this process: (sleeping in the kernel, i.e. state S; number of
+/// voluntary context switches so far). A thread that is blocked for good sleeps and its
+/// count stands still; one that merely waits now and then (a contended lock, a page
+/// fault) wakes up in between and the count moves.
+fn thread_state(tid: u32) -> Option<(bool, u64)> {
+    let s = std::fs::read_to_string(format!("/proc/self/task/{}/status", tid)).ok()?;
+    let mut sleeping = None;
+    let mut vcs = None;
+    for l in s.lines() {
+        if let Some(r) = l.strip_prefix("State:") {
+            sleeping = Some(r.trim_start().starts_with('S'));
+        } else if let Some(r) = l.strip_prefix("voluntary_ctxt_switches:") {
+            vcs = r.trim().parse::<u64>().ok();
+        }
     }
+    Some((sleeping?, vcs?))
 }
 
 impl Sched {
@@ -273,6 +283,7 @@ impl Sched {
         st.parked[me] = true;
         let mut waited = Duration::ZERO;
         let mut asleep = 0u32;
+        let mut last_vcs = u64::MAX;
         let mut seen = st.progress;
         while st.current != me {
             let (g, to) = self.cv.wait_timeout(st, POLL).unwrap();
@@ -291,11 +302,13 @@ impl Sched {
             waited += POLL;
             // Is the holder blocked in the kernel? Its OS thread state tells within a
             // few milliseconds (a thread that computes, or that the OS has merely
-            // descheduled, is never in state S); the wall-clock limit is the fallback.
+            // descheduled, is never in state S, and one that waits only briefly wakes up in
+            // between, which its count of voluntary context switches shows); the wall-clock
+            // limit is the fallback.
             let tid = st.tids[st.current];
             if tid != 0 {
                 drop(st); // the holder may want this mutex: do not look at it while holding it
-                let sleeping = thread_sleeps(tid);
+                let state = thread_state(tid);
                 st = self.st.lock().unwrap();
                 if st.current == me {
                     break;
@@ -303,9 +316,20 @@ impl Sched {
                 if st.progress != seen {
                     continue;
                 }
-                asleep = if sleeping { asleep + 1 } else { 0 };
+                asleep = match state {
+                    // asleep at this reading and not woken since the previous one
+                    Some((true, vcs)) if vcs == last_vcs => asleep + 1,
+                    Some((true, vcs)) => {
+                        last_vcs = vcs;
+                        1
+                    }
+                    _ => {
+                        last_vcs = u64::MAX;
+                        0
+                    }
+                };
             }
-            if asleep >= 3 || waited >= STALL {
+            if asleep >= 4 || waited >= STALL {
                 // only a thread that is really parked here can take over (the
                 // holder, and threads declared stalled earlier, may all be
                 // blocked in the kernel on something a parked thread owns)
@@ -318,6 +342,7 @@ impl Sched {
                 }
                 waited = Duration::ZERO;
                 asleep = 0;
+                last_vcs = u64::MAX;
                 seen = st.progress;
             }
         }
